@@ -4,8 +4,10 @@
      ClassicalDedekindReals.sig_not_dec, ClassicalDedekindReals.sig_forall_dec,
      FunctionalExtensionality.functional_extensionality_dep, Classical_Prop.classic).
    Model: Cao.Value — acyclic values as trees; a table is the list of its keys in insertion
-   order with the stored values.  [tclean a]: no NaN and no function object anywhere in a
-   (= nil, integers, non-NaN reals, strings and tables of those).
+   order with the stored values; a closure carries the identity of its object.  [no_nan a]: no
+   NaN anywhere inside a.  Function objects are ordinary members of the domain since the repair
+   f13cfaa (finding A-40); the behaviour before it is kept as [teq_legacy] for the
+   `..._legacy_refuted` witnesses.
    Termination without error of ==, hash, partial_cmp, as_bool on every acyclic value is the
    acceptance of teq / thash_bytes / tcmp / tbool as structural Fixpoints (total functions with
    no error outcome); the native stack depth needed for deep nesting is outside the model. *)
@@ -15,8 +17,8 @@ From Flocq Require Import Core.Raux IEEE754.Binary IEEE754.Bits.
 From Cao Require Import CheckUtil Bits Value ValueProofs ValueRealProofs.
 Import ListNotations.
 
-(* ---- equality is an equivalence on clean values ---- *)
-Theorem C19_eq_refl : forall a, tclean a = true -> teq a a = true.
+(* ---- equality is an equivalence off NaN ---- *)
+Theorem C19_eq_refl : forall a, no_nan a = true -> teq a a = true.
 Proof. exact teq_refl. Qed.
 Print Assumptions C19_eq_refl.
 
@@ -30,19 +32,23 @@ Proof. exact teq_sym. Qed.
 Print Assumptions C19_eq_sym.
 
 Theorem C19_eq_trans : forall a b c,
-  tclean b = true -> teq a b = true -> teq b c = true -> teq a c = true.
+  no_nan b = true -> teq a b = true -> teq b c = true -> teq a c = true.
 Proof. exact teq_trans. Qed.
 Print Assumptions C19_eq_trans.
 
-(* ---- equal values hash equally (signed zero excepted) ---- *)
+(* ---- equal values hash equally (signed zero excepted) ----
+   [coherent (tclos a ++ tclos b)]: a closure id names one object, i.e. two closure nodes with
+   the same id carry the same handle and arity (the checker tests it on every case). *)
 Theorem C19_eq_hash_bytes : forall a b,
-  teq a b = true -> tclean a = true -> tclean b = true -> no_zero_real a = true ->
+  teq a b = true -> no_nan a = true -> no_nan b = true -> no_zero_real a = true ->
+  coherent (tclos a ++ tclos b) ->
   thash_bytes a = thash_bytes b.
 Proof. exact teq_hash_bytes. Qed.
 Print Assumptions C19_eq_hash_bytes.
 
 Theorem C19_eq_hash : forall a b,
-  teq a b = true -> tclean a = true -> tclean b = true -> no_zero_real a = true ->
+  teq a b = true -> no_nan a = true -> no_nan b = true -> no_zero_real a = true ->
+  coherent (tclos a ++ tclos b) ->
   thash a = thash b.
 Proof. exact teq_hash. Qed.
 Print Assumptions C19_eq_hash.
@@ -137,24 +143,48 @@ Theorem C19_nan_not_reflexive : teq (TReal r_nan) (TReal r_nan) = false.
 Proof. exact nan_not_reflexive. Qed.
 Print Assumptions C19_nan_not_reflexive.
 
-Theorem C19_fn_not_reflexive : forall h a,
-  teq (TFn h a) (TFn h a) = false /\ teq (TNative h) (TNative h) = false /\
-  teq (TClosure h a) (TClosure h a) = false.
-Proof. exact fn_not_reflexive. Qed.
-Print Assumptions C19_fn_not_reflexive.
+(* a NaN key is skipped by iteration and counted by len(): {NaN: 1, 2: 3} == {2: 3, 4: 5} with
+   different hashes, and == is not transitive through it (why no_nan is assumed above) *)
+Theorem C19_nan_key_eq_hash_refuted :
+  teq t_nankey t_23_45 = true /\ thash t_nankey <> thash t_23_45.
+Proof. exact nan_key_eq_hash_refuted. Qed.
+Print Assumptions C19_nan_key_eq_hash_refuted.
 
-(* {f: 1, 2: 3} == {2: 3, 4: 5} with different hashes; == is not transitive through it *)
-Theorem C19_fn_key_eq_hash_refuted :
-  teq t_fnkey t_23_45 = true /\ no_nan t_fnkey = true /\ no_zero_real t_fnkey = true /\
-  thash t_fnkey <> thash t_23_45.
-Proof. exact fn_key_eq_hash_refuted. Qed.
-Print Assumptions C19_fn_key_eq_hash_refuted.
+Theorem C19_eq_trans_nan_refuted :
+  teq t_23_45 t_nankey = true /\ teq t_nankey t_23_67 = true /\ teq t_23_45 t_23_67 = false.
+Proof. exact teq_trans_nan_refuted. Qed.
+Print Assumptions C19_eq_trans_nan_refuted.
 
-Theorem C19_eq_trans_refuted :
-  teq t_23_45 t_fnkey = true /\ teq t_fnkey t_23_67 = true /\ teq t_23_45 t_23_67 = false /\
-  no_nan t_fnkey = true.
-Proof. exact teq_trans_refuted. Qed.
-Print Assumptions C19_eq_trans_refuted.
+(* ---- before the repair f13cfaa (finding A-40): function objects were never equal ---- *)
+Theorem C19_fn_not_reflexive_legacy : forall i h a,
+  teq_legacy (TFn h a) (TFn h a) = false /\ teq_legacy (TNative h) (TNative h) = false /\
+  teq_legacy (TClosure i h a) (TClosure i h a) = false.
+Proof. exact fn_not_reflexive_legacy. Qed.
+Print Assumptions C19_fn_not_reflexive_legacy.
+
+(* {f: 1, 2: 3} == {2: 3, 4: 5} with different hashes; == was not transitive through it *)
+Theorem C19_fn_key_eq_hash_legacy_refuted :
+  teq_legacy t_fnkey t_23_45 = true /\ no_nan t_fnkey = true /\ no_zero_real t_fnkey = true /\
+  thash_legacy t_fnkey <> thash_legacy t_23_45.
+Proof. exact fn_key_eq_hash_legacy_refuted. Qed.
+Print Assumptions C19_fn_key_eq_hash_legacy_refuted.
+
+Theorem C19_eq_trans_legacy_refuted :
+  teq_legacy t_23_45 t_fnkey = true /\ teq_legacy t_fnkey t_23_67 = true /\
+  teq_legacy t_23_45 t_23_67 = false /\ no_nan t_fnkey = true.
+Proof. exact teq_trans_legacy_refuted. Qed.
+Print Assumptions C19_eq_trans_legacy_refuted.
+
+(* the repaired code tells them apart *)
+Theorem C19_fn_key_repaired :
+  teq t_fnkey t_23_45 = false /\ teq t_fnkey t_fnkey = true /\ teq t_fnkey t_23_67 = false.
+Proof. exact fn_key_repaired. Qed.
+Print Assumptions C19_fn_key_repaired.
+
+(* the checker's executable coherence test implies [coherent] *)
+Theorem C19_coherentb_correct : forall c, coherentb c = true -> coherent c.
+Proof. exact coherentb_correct. Qed.
+Print Assumptions C19_coherentb_correct.
 
 (* ---- the checker's integer-only oracle for Integer/Real comparisons is the numeric order ---- *)
 Theorem C19_oracle_Z_cmp_sf_correct : forall i r, is_finite 53 1024 r = true ->
@@ -163,7 +193,8 @@ Proof. exact Z_cmp_sf_correct. Qed.
 Print Assumptions C19_oracle_Z_cmp_sf_correct.
 
 (* non-vacuity *)
-Example C19_clean_nonvacuous :
-  tclean (TTable [(TStr [97%N], TTable [(TInt 1, TReal r_zero)]); (TInt 2, TNil)]) = true /\
-  no_zero_real (TTable [(TStr [97%N], TInt 3)]) = true.
-Proof. split; reflexivity. Qed.
+Example C19_domain_nonvacuous :
+  no_nan (TTable [(TStr [97%N], TTable [(TInt 1, TReal r_zero)]); (TClosure 0 7 1, TFn 7 1)]) = true /\
+  no_zero_real (TTable [(TStr [97%N], TInt 3)]) = true /\
+  coherent (tclos (TTable [(TClosure 0 7 1, TNil)]) ++ tclos (TClosure 0 7 1)).
+Proof. repeat split; try reflexivity. apply coherentb_correct. reflexivity. Qed.
